@@ -114,6 +114,45 @@ func resultString(res tsdbrun.Result) string {
 	return sb.String()
 }
 
+// sameResults compares what two opens return. At a timestamp where the history stored two values
+// (one in order, one through the out-of-order path) either of them may be returned, by either open.
+func sameResults(r *tsdbrun.Run, a, b tsdbrun.Result) bool {
+	keys := map[int]bool{} // series without samples may be absent from one of the maps
+	for k := range a {
+		keys[k] = true
+	}
+	for k := range b {
+		keys[k] = true
+	}
+	for si := range keys {
+		oa, ob := a[si], b[si]
+		if len(oa) != len(ob) {
+			return false
+		}
+		for i := range oa {
+			if oa[i].T != ob[i].T {
+				return false
+			}
+			if oa[i].String() == ob[i].String() {
+				continue
+			}
+			p := r.M.Series[si].Pts[oa[i].T]
+			if p == nil || len(p.Vals) < 2 {
+				return false
+			}
+			okA, okB := false, false
+			for _, v := range p.Vals {
+				okA = okA || oa[i].Matches(v)
+				okB = okB || ob[i].Matches(v)
+			}
+			if !okA || !okB {
+				return false
+			}
+		}
+	}
+	return true
+}
+
 func runC53(c c53Case, rec *ev.Rec) error {
 	r, err := tsdbrun.RunAll(c.H, rec, nil)
 	if r != nil {
@@ -218,6 +257,7 @@ func runC53(c c53Case, rec *ev.Rec) error {
 	type subRange struct {
 		mint, maxt int64
 		rw         string
+		res        tsdbrun.Result
 	}
 	var subs []subRange
 	{
@@ -247,7 +287,7 @@ func runC53(c c53Case, rec *ev.Rec) error {
 			res, serr := tsdbrun.QuerySamples(qq, tsdbrun.Matchers(nil))
 			qq.Close()
 			if serr == nil {
-				subs = append(subs, subRange{a, b, resultString(res)})
+				subs = append(subs, subRange{a, b, resultString(res), res})
 			}
 		}
 	}
@@ -344,7 +384,7 @@ func runC53(c c53Case, rec *ev.Rec) error {
 		}
 	}
 	sa, sb := resultString(resA), resultString(resB)
-	if sa != sb {
+	if sa != sb && !sameResults(r, resA, resB) {
 		sig := ""
 		msg := fmt.Sprintf("read-only and read-write open of the same directory return different data\nread-only:\n%sread-write:\n%sconfig %+v clean=%v\nhistory:\n%s", sa, sb, c.H.Cfg, c.Clean, r.TraceString())
 		if sig != "" {
@@ -369,7 +409,7 @@ func runC53(c c53Case, rec *ev.Rec) error {
 		if qerr != nil {
 			return ev.Failf("read-only query [%d,%d]: %v\nhistory:\n%s", sr.mint, sr.maxt, qerr, r.TraceString())
 		}
-		if got := resultString(res); got != sr.rw {
+		if got := resultString(res); got != sr.rw && !sameResults(r, res, sr.res) {
 			return ev.Failf("read-only and read-write open return different data for the range [%d,%d]\nread-only:\n%sread-write:\n%sconfig %+v clean=%v\nhistory:\n%s", sr.mint, sr.maxt, got, sr.rw, c.H.Cfg, c.Clean, r.TraceString())
 		}
 		rec.Class("sub-range-compared")
